@@ -70,12 +70,31 @@ var scratchRoot = func() string {
 	return d
 }()
 
+var (
+	sessionDirsMu sync.Mutex
+	sessionDirs   []string
+)
+
+// CleanupSessions removes the scratch directory of every session created by this process (a session that was
+// never run — single-document mode, an early return — would otherwise leave its directory behind).
+func CleanupSessions() {
+	sessionDirsMu.Lock()
+	defer sessionDirsMu.Unlock()
+	for _, d := range sessionDirs {
+		os.RemoveAll(d)
+	}
+	sessionDirs = nil
+}
+
 func NewSession(mode string) *Session {
 	dir, err := os.MkdirTemp(scratchRoot, "vf-sess-")
 	if err != nil {
 		panic(err)
 	}
 	s := &Session{Mode: mode, dir: dir}
+	sessionDirsMu.Lock()
+	sessionDirs = append(sessionDirs, dir)
+	sessionDirsMu.Unlock()
 	s.reqF, _ = os.Create(filepath.Join(dir, "req"))
 	s.expF, _ = os.Create(filepath.Join(dir, "exp"))
 	s.reqW = bufio.NewWriterSize(s.reqF, 1<<20)
